@@ -59,7 +59,7 @@ TECHNIQUE = ("Coq proof about the executable model of Validator::validate and of
              "converse (completeness) for conflicts and for statically required arguments, the two recorded findings as "
              "boolean families of definitions with step-level theorems for Parser::remove_overrides / start_custom_arg "
              "+ extracted-model/implementation correspondence + direct python oracle on every successful parse")
-LEVEL_TEXT = ("58 machine-checked theorems (Coq 8.16, all closed under the global context, no standard-library axiom).  "
+LEVEL_TEXT = ("57 pinned machine-checked theorems (Coq 8.16, all closed under the global context, no standard-library axiom).  "
               "C03_parse_sound_tree / C03_parse_top_sound_tree: for every valid definition of the class plain (no short "
               "flag-subcommands) + no_ignore (no node sets ignore_errors; the class is proved to be inherited by every "
               "command the parser builds) and every argv, a successful parse reports -- up to the copy of global "
